@@ -1,6 +1,7 @@
 import HttpcoreModel.Props.C04
 import HttpcoreModel.Props.C05
 import HttpcoreModel.Props.C01
+import HttpcoreModel.Props.C09
 /-!
 # C08 — The synchronous pool is thread-safe
 
@@ -37,17 +38,47 @@ thread that reaches the gate after another thread began closing get ConnectionNo
 a socket that is being closed under it. -/
 theorem close_marks_closed_first : Gen.h1CloseMarksClosedFirst = true := by decide
 
-def demoCfg : Cfg := { maxConn := 1, maxKeepalive := 1, newAvail := fun _ => false, countIdleOnly := true }
+/-- **C08.retire_only_unassigned** — a pass closes a connection as surplus, or evicts one to make room, only if no request
+has been handed that connection (`reserved` = the connections assigned before the pass plus those assigned in it): a thread
+that has been given an idle connection and has not started on it yet cannot have it closed under it by another thread's pass.
+(Expired connections are still closed; the request then finds CLOSED at the gate - `close_marks_closed_first`.) -/
+theorem retire_only_unassigned (cfg : Cfg) (hfix : cfg.countIdleOnly = true) (res : List Nat) (s : State) (r : Req) :
+    (∀ e ∈ (cleanup cfg res s.conns s.conns []).2, e.2 ≠ .expired → isReserved res e.1 = false) ∧
+    ((assignOne cfg s r).1.closing = s.closing ∨
+      ∃ i, (assignOne cfg s r).1.closing = s.closing ++ [(i, .room)] ∧ isReserved s.reserved i = false) := by
+  constructor
+  · intro e he hne
+    rcases C09.close_reasons cfg hfix res s e he with h | ⟨k, _, _, h3, _⟩
+    · exact absurd h.1 hne
+    · exact h3
+  · rcases C09.eviction_reason cfg s r with h | ⟨i, h1, _, _, h4, _⟩
+    · exact Or.inl h
+    · exact Or.inr ⟨i, h1, h4⟩
+
+/-- a request that is handed an available connection reserves it for the rest of the pass -/
+theorem assignment_reserves (cfg : Cfg) (hp : cfg.protectAssigned = true) (s : State) (r : Req) (c : Conn) (tl : List Conn)
+    (hav : s.conns.filter (fun c => c.origin == r.origin && c.available) = c :: tl) :
+    isReserved (assignOne cfg s r).1.reserved c = true := by
+  simp [assignOne, hav, hp, isReserved]
+
+/-- the current source protects assigned connections (regenerated) -/
+theorem source_protects_assigned : Gen.poolProtectsAssigned = true := by decide
+
+def demoCfg (protect : Bool) : Cfg :=
+  { maxConn := 1, maxKeepalive := 1, newAvail := fun _ => false, countIdleOnly := true, protectAssigned := protect }
 def demoState : State :=
   { conns := [{ id := 0, origin := 0, closed := false, expired := false, idle := true, available := true }],
     reqs := [{ id := 0, origin := 0, conn := none }, { id := 1, origin := 1, conn := none }], closing := [], nextId := 1 }
 
-/-- **finding F-C08-a (proved of the pass model, replayed on the implementation under the thread scheduler)** — one pass hands
-the idle connection 0 to the waiting request 0 *and* evicts that very connection to make room for request 1. In the async pool
-the first request then finds the connection closed and is re-assigned; with threads it can already be sending on it when the
-evicting thread closes it, and fails with ReadError / WriteError. -/
-theorem pass_assigns_and_evicts_same_connection :
-    (pass demoCfg demoState).reqs.head?.bind (·.conn) = some 0 ∧
-    ((pass demoCfg demoState).closing.map (·.1.id)) = [0] := by decide
+/-- **finding F-C08-a (1.0.7 behaviour; repaired)** — one pass hands the idle connection 0 to the waiting request 0 *and*
+evicts that very connection to make room for request 1. In the async pool the first request then finds the connection
+closed and is re-assigned; with threads it could already be sending on it when the evicting thread closed it. -/
+theorem pass_assigns_and_evicts_same_connection_107 :
+    (pass (demoCfg false) demoState).reqs.head?.bind (·.conn) = some 0 ∧
+    ((pass (demoCfg false) demoState).closing.map (·.1.id)) = [0] := by decide
+
+/-- the same pass with the repaired rule: request 0 gets connection 0, nothing is closed, request 1 waits its turn -/
+theorem pass_keeps_assigned_connection :
+    (pass (demoCfg true) demoState).reqs.map (·.conn) = [some 0, none] ∧ (pass (demoCfg true) demoState).closing = [] := by decide
 
 end Httpcore.C08
